@@ -194,6 +194,25 @@ def structures(rng):
     m2 = gen.transform(m1, t=(0.4, -0.3, 0.2))
     out.append(("two-models-8-9", rows_from(m1, model=8) + rows_from(m2, model=9, start_id=len(m1) + 1)))
     out.append(("two-models-9-10", rows_from(m1, model=9) + rows_from(m2, model=10, start_id=len(m1) + 1)))
+    # a residue of the chain recorded as HETATM, with ATOM rows after it (file order must be kept)
+    het = []
+    for a in gen.peptide(["ALA", "SER", "LYS", "GLY", "ASP"]):
+        het.append(dict(a, rec="HETATM") if a["res_index"] == 1 else a)
+    out.append(("hetatm-residue-inside-chain", rows_from(het + gen.water((6, 14, 4), resseq=101))))
+    # alternate locations beyond the plain A/B pair: an atom present only as B, a residue labelled C/D after one labelled A/B
+    alt2 = []
+    for a in gen.peptide(["ALA", "VAL", "SER", "LEU", "GLY"]):
+        if a["res_index"] == 1 and a["name"] == "CG1":
+            alt2 += [dict(a, alt="A"), dict(a, alt="B", xyz=a["xyz"] + 0.3)]
+        elif a["res_index"] == 1 and a["name"] == "CG2":
+            alt2.append(dict(a, alt="B"))                      # only the B location of this atom is modelled
+        elif a["res_index"] == 3 and a["name"] in ("CD1", "CD2"):
+            alt2 += [dict(a, alt="C"), dict(a, alt="D", xyz=a["xyz"] + 0.25)]
+        elif a["res_index"] == 2 and a["name"] == "OG":
+            alt2 += [dict(a, alt="B"), dict(a, alt="A", xyz=a["xyz"] + 0.2)]      # B listed before A
+        else:
+            alt2.append(a)
+    out.append(("alternate-locations-irregular", rows_from(alt2)))
     # rows of the two models not contiguous (entity-major order: each row carries its own model number)
     w1 = gen.water((6, 14, 4), resseq=101) + gen.water((-5, 10, 3), resseq=102)
     w2 = gen.transform(w1, t=(0.4, -0.3, 0.2))
